@@ -449,7 +449,40 @@ def make_prog(cfg):
                                     v_ = v_[0]
                             if isinstance(v_, torch.Tensor):
                                 tot += v_.nelement() * v_.element_size()
+                    # ... and whatever the preconditioner's communicator still holds (buckets kept after they were sent,
+                    # their tensors, fused buffers and futures): storages not already counted above
+                    seen_ptr = set()
+                    for _, l in p._layers.values():
+                        for v_ in vars(l).values():
+                            if isinstance(v_, torch.Tensor):
+                                seen_ptr.add(v_.untyped_storage().data_ptr())
+                    extra, stack, seen_id = 0, [(getattr(p, '_tdc', None), 0)], set()
+                    while stack:
+                        o_, d_ = stack.pop()
+                        if o_ is None or id(o_) in seen_id or d_ > 6:
+                            continue
+                        seen_id.add(id(o_))
+                        if isinstance(o_, torch.Tensor):
+                            ptr = o_.untyped_storage().data_ptr()
+                            if ptr not in seen_ptr and o_.nelement():
+                                seen_ptr.add(ptr)
+                                extra += o_.untyped_storage().nbytes()
+                            continue
+                        if isinstance(o_, (torch.futures.Future, torch._C.Future)):
+                            if o_.done():
+                                try:
+                                    stack.append((o_.value(), d_ + 1))
+                                except Exception:  # noqa: BLE001
+                                    pass
+                            continue
+                        if isinstance(o_, dict):
+                            stack.extend((x_, d_ + 1) for x_ in list(o_.values()))
+                        elif isinstance(o_, (list, tuple, set, frozenset)):
+                            stack.extend((x_, d_ + 1) for x_ in list(o_))
+                        elif hasattr(o_, '__dict__') and type(o_).__module__.startswith('kfac'):
+                            stack.extend((x_, d_ + 1) for x_ in list(vars(o_).values()))
                     rec['actual_total'] = tot
+                    rec['communicator_extra'] = extra
                 elif op in ('v1', 'v0', 'Y'):
                     # 'Y': a full round trip on the LIVE preconditioner (state with factors taken and loaded straight back,
                     # compute_inverses=False): pending batch statistics, factors and second-order data all stay as they are
